@@ -82,6 +82,7 @@ Inductive stmt :=
 | SSetFieldNZ (f : field) (z : nzexpr)             (* self.bucket_capacity = z *)
 (* Arena level *)
 | SAllocQ (e : expr)                               (* self.allocate_memory(e)?; *)
+| SLetNZ (x : string) (z : nzexpr)                 (* let x = <NonZeroUsize value>; *)
 | SNewBucketQ (x : string) (z : nzexpr)            (* let mut x = Bucket::with_capacity(z)?; *)
 | SPushSlice (r x : string)                        (* let r = unsafe { x.push_slice(slice) }; *)
 | SVecPush (x : string)                            (* self.buckets.push(x); *)
@@ -325,6 +326,11 @@ Fixpoint exec (s : str) (p : stmt) (st : state) : outcome :=
           | (a', Ok _) => ONormal (mkState a' nums bks refs (ok /\ q /\ alloc_pre a n))
           | (a', Err k) => OReturn a' (RVErr k) (ok /\ q /\ alloc_pre a n)
           end
+      | None => OStuck end
+  | SLetNZ x z =>
+      match eval_nz cx z with
+      | Some (inl n, q) => ONormal (mkState a ((x, n) :: nums) bks refs (ok /\ q))
+      | Some (inr k, q) => OReturn a (RVErr k) (ok /\ q)
       | None => OStuck end
   | SNewBucketQ x z =>
       match eval_nz cx z with
